@@ -83,6 +83,31 @@ def pack_trivial(t) -> bool:
     return t is typing.Any or o in SCALARS_IDENTITY or (_sub(o, str) and not _sub(o, enum.Enum))
 
 
+def _is_unpack(t):
+    return typing.get_origin(t) is typing.Unpack or getattr(t, "__unpacked__", False) is True
+
+
+def _tuple_items(a, x, conv, var_fmt):
+    """Items of a fixed tuple; an unpacked variadic member takes the slice between its neighbours."""
+    n = len(a)
+    out = []
+    seen = False
+    for i, ai in enumerate(a):
+        if _is_unpack(ai):
+            seen = True
+            inner = typing.get_args(ai)[0] if typing.get_origin(ai) is typing.Unpack else ai
+            ia = typing.get_args(inner)
+            j = (i + 1 - n) if i < n - 1 else None
+            sl = f"{x}[{i}:{'' if j is None else j}]"
+            elem = conv(ia[0] if ia else typing.Any, "value")
+            out.append("*" + var_fmt.format(elem, sl))
+        elif seen:
+            out.append(conv(ai, f"{x}[{i - n}]"))
+        else:
+            out.append(conv(ai, f"{x}[{i}]"))
+    return out
+
+
 # --------------------------------------------------------------------------- T-PACK
 def _optional_arg(t):
     if typing.get_origin(t) in (typing.Union, types.UnionType):
@@ -130,7 +155,7 @@ def ref_pack(t: Any, x: str, no_copy: Tuple = (), cbn: bool = True) -> List[str]
         if not a or (len(a) == 2 and a[1] is Ellipsis):
             e = _one(ref_pack(a[0] if a else typing.Any, "value", no_copy))
             return [f"[{e} for value in {x}]"]
-        return ["[" + ", ".join(_one(ref_pack(ai, f"{x}[{i}]", no_copy)) for i, ai in enumerate(a)) + "]"]
+        return ["[" + ", ".join(_tuple_items(a, x, lambda t_, e_: _one(ref_pack(t_, e_, no_copy)), "[{} for value in {}]")) + "]"]
     if _sub(o, collections.ChainMap):
         k = _one(ref_pack(a[0] if a else typing.Any, "key", no_copy))
         v = _one(ref_pack(a[1] if a else typing.Any, "value", no_copy))
@@ -208,7 +233,7 @@ def ref_unpack(t: Any, x: str, cbn: bool = True) -> List[str]:
         if not a or (len(a) == 2 and a[1] is Ellipsis):
             e = _one(ref_unpack(a[0] if a else typing.Any, "value"))
             return [f"tuple([{e} for value in {x}])", f"tuple({e} for value in {x})"]
-        return ["tuple([" + ", ".join(_one(ref_unpack(ai, f"{x}[{i}]")) for i, ai in enumerate(a)) + "])"]
+        return ["tuple([" + ", ".join(_tuple_items(a, x, lambda t_, e_: _one(ref_unpack(t_, e_)), "tuple([{} for value in {}])")) + "])"]
     if _sub(o, collections.abc.Mapping):
         kt = a[0] if a else typing.Any
         vt = int if _sub(o, collections.Counter) else (a[1] if len(a) > 1 else typing.Any)
@@ -319,8 +344,20 @@ def typeref_of_identifier_call(h: Hole) -> Optional[str]:
     return None
 
 
+class _Norm(ast.NodeTransformer):
+    """Equivalent spellings: x[a:None] == x[a:], tuple(gen) handled by alternatives."""
+
+    def visit_Slice(self, node: ast.Slice):
+        self.generic_visit(node)
+        for f in ("lower", "upper", "step"):
+            v = getattr(node, f)
+            if isinstance(v, ast.Constant) and v.value is None:
+                setattr(node, f, None)
+        return node
+
+
 def canon_text(src: str) -> str:
     try:
-        return ast.dump(ast.parse(src, mode="eval"))
+        return ast.dump(_Norm().visit(ast.parse(src, mode="eval")))
     except SyntaxError:
         return "<unparseable> " + src
